@@ -40,14 +40,14 @@ pub open spec fn attach<C: ServerContext>(route: Route, s: Seq<Pair<C>>) -> Seq<
 pub open spec fn own_items<C: ServerContext>(route: Route, n: HttpRouterNode<C>, version: Option<&Version>) -> Seq<Listed<C>> {
     attach(route, own_pairs(n, version))
 }
-/// the children of a node with the label the listing gives to the edge that leads to each (a wildcard child is
-/// labelled like a single-segment variable: the document has no other way to write it)
+/// the children of a node with the label of the edge that leads to each, as the route's TEMPLATE writes it: a literal,
+/// `{name}` for a single-segment variable, `{name:.*}` for a wildcard (C06: "under its ... path template")
 pub open spec fn children<C: ServerContext>(n: HttpRouterNode<C>) -> Seq<(PathSegment, HttpRouterNode<C>)> {
     match n.edges {
         None => Seq::empty(),
         Some(HttpRouterEdges::Literals(m)) => Seq::new(key_order(m@.dom()).len(), |i: int| (PathSegment::Literal(key_order(m@.dom())[i]), *m@[key_order(m@.dom())[i]])),
         Some(HttpRouterEdges::VariableSingle(name, child)) => seq![(PathSegment::VarnameSegment(name), *child)],
-        Some(HttpRouterEdges::VariableRest(name, child)) => seq![(PathSegment::VarnameSegment(name), *child)],
+        Some(HttpRouterEdges::VariableRest(name, child)) => seq![(PathSegment::VarnameWildcard(name), *child)],
     }
 }
 /// the whole listing of the sub-trie under a node reached by `route`, at a version: the node's own pairs, then each
@@ -59,7 +59,7 @@ pub open spec fn dfs<C: ServerContext>(n: HttpRouterNode<C>, route: Route, versi
         None => Seq::empty(),
         Some(HttpRouterEdges::Literals(m)) => dfs_lit(m, key_order(m@.dom()), route, version),
         Some(HttpRouterEdges::VariableSingle(name, child)) => dfs(*child, route.push(PathSegment::VarnameSegment(name)), version),
-        Some(HttpRouterEdges::VariableRest(name, child)) => dfs(*child, route.push(PathSegment::VarnameSegment(name)), version),
+        Some(HttpRouterEdges::VariableRest(name, child)) => dfs(*child, route.push(PathSegment::VarnameWildcard(name)), version),
     })
 }
 pub open spec fn dfs_lit<C: ServerContext>(m: BTreeMap<String, Box<HttpRouterNode<C>>>, keys: Seq<String>, route: Route, version: Option<&Version>) -> Seq<Listed<C>>
@@ -114,10 +114,10 @@ pub proof fn dfs_unfold<C: ServerContext>(n: HttpRouterNode<C>, route: Route, ve
         }
         Some(HttpRouterEdges::VariableRest(name, child)) => {
             let s = children(n);
-            assert(s.len() == 1 && s[0] == (PathSegment::VarnameSegment(name), *child));
+            assert(s.len() == 1 && s[0] == (PathSegment::VarnameWildcard(name), *child));
             assert(flat(s.skip(1), route, version) =~= Seq::<Listed<C>>::empty());
             assert(flat(s, route, version) == dfs(s[0].1, route.push(s[0].0), version) + flat(s.skip(1), route, version));
-            assert(flat(s, route, version) =~= dfs(*child, route.push(PathSegment::VarnameSegment(name)), version));
+            assert(flat(s, route, version) =~= dfs(*child, route.push(PathSegment::VarnameWildcard(name)), version));
         }
     }
 }
@@ -231,7 +231,7 @@ pub open spec fn holds<C: ServerContext>(n: HttpRouterNode<C>, route: Route, at:
         None => false,
         Some(HttpRouterEdges::Literals(mp)) => exists|k: String| #[trigger] mp@.contains_key(k) && holds(*mp@[k], route.push(PathSegment::Literal(k)), at, m, e),
         Some(HttpRouterEdges::VariableSingle(name, child)) => holds(*child, route.push(PathSegment::VarnameSegment(name)), at, m, e),
-        Some(HttpRouterEdges::VariableRest(name, child)) => holds(*child, route.push(PathSegment::VarnameSegment(name)), at, m, e),
+        Some(HttpRouterEdges::VariableRest(name, child)) => holds(*child, route.push(PathSegment::VarnameWildcard(name)), at, m, e),
     })
 }
 pub proof fn attach_contains<C: ServerContext>(route: Route, s: Seq<Pair<C>>, at: Route, m: String, e: ApiEndpoint<C>)
@@ -298,7 +298,7 @@ pub proof fn listing_is_exact<C: ServerContext>(n: HttpRouterNode<C>, route: Rou
         None => Seq::empty(),
         Some(HttpRouterEdges::Literals(mp)) => dfs_lit(mp, key_order(mp@.dom()), route, version),
         Some(HttpRouterEdges::VariableSingle(name, child)) => dfs(*child, route.push(PathSegment::VarnameSegment(name)), version),
-        Some(HttpRouterEdges::VariableRest(name, child)) => dfs(*child, route.push(PathSegment::VarnameSegment(name)), version),
+        Some(HttpRouterEdges::VariableRest(name, child)) => dfs(*child, route.push(PathSegment::VarnameWildcard(name)), version),
     };
     concat_contains(own_items(route, n, version), below, (at, m, e));
     assert(handlers_for(n, m).contains(e) ==> n.methods@.contains_key(m)) by {
@@ -314,7 +314,7 @@ pub proof fn listing_is_exact<C: ServerContext>(n: HttpRouterNode<C>, route: Rou
             }
         }
         Some(HttpRouterEdges::VariableSingle(name, child)) => { listing_is_exact(*child, route.push(PathSegment::VarnameSegment(name)), version, at, m, e); }
-        Some(HttpRouterEdges::VariableRest(name, child)) => { listing_is_exact(*child, route.push(PathSegment::VarnameSegment(name)), version, at, m, e); }
+        Some(HttpRouterEdges::VariableRest(name, child)) => { listing_is_exact(*child, route.push(PathSegment::VarnameWildcard(name)), version, at, m, e); }
     }
 }
 pub proof fn lit_listing_is_exact<C: ServerContext>(mp: BTreeMap<String, Box<HttpRouterNode<C>>>, keys: Seq<String>, route: Route, version: Option<&Version>,
@@ -582,7 +582,7 @@ pub proof fn listing_ignores_the_order_inside_a_method_list<C: ServerContext>(a:
             listing_ignores_the_order_inside_a_method_list(*ca, *cb, route.push(PathSegment::VarnameSegment(x)), v);
         }
         (Some(HttpRouterEdges::VariableRest(x, ca)), Some(HttpRouterEdges::VariableRest(y, cb))) => {
-            listing_ignores_the_order_inside_a_method_list(*ca, *cb, route.push(PathSegment::VarnameSegment(x)), v);
+            listing_ignores_the_order_inside_a_method_list(*ca, *cb, route.push(PathSegment::VarnameWildcard(x)), v);
         }
         _ => {}
     }
